@@ -18,6 +18,7 @@ TABLE = {
     "C19": "hivemon.monitors.eventlog:C19",
     "C20": "hivemon.monitors.shift:C20",
     "C13R": "hivemon.monitors.routes:C13R",
+    "C14R": "hivemon.monitors.routes:C14R",
 }
 
 
